@@ -10,7 +10,7 @@ import (
 
 // C18 — spray-and-wait never exceeds, and never leaks, its copy budget.
 
-var c18Ops = []string{"submit", "submit", "recv", "up", "up", "up", "up", "down", "script", "script", "script", "tick", "tick", "tick"}
+var c18Ops = []string{"submit", "submit", "recv", "up", "up", "up", "up", "down", "script", "script", "script", "tick", "tick", "tick", "restart"}
 
 type c18Ledger struct {
 	held     int             // binary: copies held by this node
@@ -41,11 +41,17 @@ func c18Body(c *vk.Ctx, cs hCase) {
 	led := map[*hBundleState]*c18Ledger{}
 	failedThenOK := false
 	sawFail := false
+	restarted := false
 	for k, op := range cs.Ops {
 		if !w.apply(k, op) {
 			continue
 		}
 		c.Class("op=" + op.Op)
+		if op.Op == "restart" {
+			// the copy budget is kept in memory only: after a restart the node may have forgotten copies (it
+			// then only delivers directly), but it must never hand out copies it has already given away
+			restarted = true
+		}
 		if op.Op == "submit" || op.Op == "recv" {
 			st := w.bs[op.A%len(w.bs)]
 			if led[st] == nil {
@@ -114,7 +120,7 @@ func c18Body(c *vk.Ctx, cs hCase) {
 	}
 	// closing phase (vanilla): all peers connected and succeeding; the budget must be used exactly:
 	// a copy of a failed transmission is given back (none lost), none is invented
-	if !binary {
+	if !binary && !restarted {
 		for i := range w.names {
 			w.s.setFailAll(w.names[i], false)
 		}
@@ -231,7 +237,7 @@ func genC18(t *rapid.T) hCase {
 
 func TestVerifC18Histories(t *testing.T) {
 	u := vk.Unit{Property: "C18", Name: "c18.histories", Quick: 900, Thorough: 16000,
-		Rule: "histories over {submit, receive with k copies (binary), peer appears/disappears, sends to a peer fail/succeed - including sends to the directly connected destination -, retry tick} for budgets L = 1..8 and 1..6 peers, under spray-and-wait and binary spray; oracle = copy-budget ledger fed only by what the scripted peers observe (bytes and outcomes): vanilla: successful transmissions to non-destination peers <= L-1 at all times and, once all peers are connected and succeed, exactly min(L-1, peers); binary: every transmitted copy announces half (rounded down) of the copies held, also after a failed transmission, and a holder of one copy transmits only to the destination; non-trivial = a failed transmission followed by a successful one; distinct by case hash"}
+		Rule: "histories over {submit, receive with k copies (binary), peer appears/disappears, sends to a peer fail/succeed - including sends to the directly connected destination -, retry tick, orderly restart} for budgets L = 1..8 and 1..6 peers, under spray-and-wait and binary spray; oracle = copy-budget ledger fed only by what the scripted peers observe (bytes and outcomes): vanilla: successful transmissions to non-destination peers <= L-1 at all times and, once all peers are connected and succeed, exactly min(L-1, peers); binary: every transmitted copy announces half (rounded down) of the copies held, also after a failed transmission, and a holder of one copy transmits only to the destination; non-trivial = a failed transmission followed by a successful one; distinct by case hash"}
 	vk.Check(t, u, genC18, c18Body)
 	_ = fmt.Sprint
 }
